@@ -284,9 +284,10 @@ const (
 	ChainWrongPurpose
 	ChainSwapped // two neighbours swapped
 	ChainDupLeaf
+	ChainTSALeafEKU // timestamping purpose: the leaf's extended key usage is not exactly {timeStamping} (unknown OID only / empty extension absent / extra usage)
 )
 
-var chainDefectNames = []string{"valid", "empty", "reversed", "missing_root", "leaf_is_ca", "wrong_purpose", "neighbours_swapped", "duplicate_leaf"}
+var chainDefectNames = []string{"valid", "empty", "reversed", "missing_root", "leaf_is_ca", "wrong_purpose", "neighbours_swapped", "duplicate_leaf", "tsa_leaf_eku_not_timestamping_only"}
 
 // TSA chain defects (C15). The first group is rejected by tspclient-go /
 // crypto/x509, the second only by notation-core-go's own chain validation.
